@@ -191,10 +191,9 @@ func (m *C11) take(st *explore.Step, msg *baskettypes.MsgTake) []V {
 	}
 	retire := msg.RetireOnTake
 	prec := basketPrecision(pre, b.CreditTypeAbbrev)
-	amt, ok := new(big.Int).SetString(msg.Amount, 10)
-	if !ok {
-		return out
-	}
+	// the amount taken = the basket tokens actually burnt (how the numeral in the request is read,
+	// and whether burn and release agree, is C05's subject)
+	amt := new(big.Int).Sub(pre.TotalSupply(b.BasketDenom), post.TotalSupply(b.BasketDenom))
 	need := new(big.Rat).Quo(ref.RatOfInt(amt), ref.RatOfInt(ref.Pow10(prec)))
 	resp, ok := st.Res.Resp.(*baskettypes.MsgTakeResponse)
 	if !ok {
